@@ -1,5 +1,6 @@
 import CppUModel.Base.Proto
 import CppUModel.Model.LeakDetector
+import CppUModel.Model.LeakReportText
 /-!
 Replay of `h_c04` / `h_c06` traces through the detector model (shared by `Driver/C04.lean` and
 `Driver/C06.lean`).  Environment inputs (the address the underlying allocator / `PlatformSpecificRealloc`
@@ -18,6 +19,7 @@ structure DState where
   st      : State := State.init hashPrime
   reg     : Array RegEntry := #[]
   cur     : Current := { newA := default, newArrayA := default, mallocA := default }
+  base    : Nat := 0      -- real address of the printed address 0 (environment, from the setup lines)
 deriving Inhabited
 
 def strHex (s : String) : String := Proto.hex s.toUTF8.toList
@@ -55,6 +57,14 @@ def renderEv (result : Nat) (sizes : Bool) : Ev → String
 
 def totalsLine (s : State) : String :=
   s!"totals {totalMemoryLeaks s .all} {totalMemoryLeaks s .disabled} {totalMemoryLeaks s .enabled} {totalMemoryLeaks s .checking}"
+
+def hex16 (v : UInt64) : String :=
+  String.ofList ((List.range 16).map (fun i => Proto.hexDigit ((v.toNat >>> (4 * (15 - i))) % 16)))
+
+/-- the complete report text, as length and FNV-1a hash -/
+def reportTextLine (s : State) (p : Period) (base : Nat) : String :=
+  let t := fastReportTextOf s p base
+  s!"reporttext {t.length} {hex16 (fnv1a t)}"
 
 def insertSorted (x : Nat × List String) : List (Nat × List String) → List (Nat × List String)
   | [] => [x]
@@ -106,6 +116,7 @@ def parseRegistry (obs : List (List String)) : Array RegEntry := Id.run do
 
 def setupLines (reg : Array RegEntry) (obs : List (List String)) : List String :=
   [s!"const nodesize {nodeStructBytes} hashprime {hashPrime} guard {guardSize}"] ++
+  (obs.filter (fun l => l.head? == some "base")).map (fun l => " ".intercalate l) ++
   (obs.filter (fun l => l.head? == some "allocator")).map (fun l => " ".intercalate l) ++
   (List.range reg.size).map (fun i =>
     match reg[i]? with
@@ -141,12 +152,14 @@ def alignLost (implFails : List (List String)) : List String → List String
 
 /-- model step on the trace; returns the new state and the model's observation lines -/
 def modelStepRaw (d : DState) (op : List String) (obs : List (List String)) : DState × List String :=
-  let fin (d' : DState) (ls : List String) : DState × List String := (d', ls ++ [totalsLine d'.st])
+  let fin (d' : DState) (ls : List String) : DState × List String :=
+    (d', ls ++ [totalsLine d'.st, s!"allocnum {getCurrentAllocationNumber d'.st}"])
   match op with
   | ["setup"] =>
     let reg := parseRegistry obs
     let g (i : Nat) : Allocator := (reg[i]?.map (·.alloc)).getD default
-    ({ st := State.init hashPrime, reg := reg, cur := { newA := g 0, newArrayA := g 1, mallocA := g 2 } },
+    let base := ((obs.find? (fun l => l.head? == some "base")).bind (fun l => l[1]? >>= String.toNat?)).getD 0
+    ({ st := State.init hashPrime, reg := reg, cur := { newA := g 0, newArrayA := g 1, mallocA := g 2 }, base := base },
      setupLines reg obs)
   | ["skip"] => (d, [])
   | ["alloc", ai, size, file, line, sep] =>
@@ -192,7 +205,7 @@ def modelStepRaw (d : DState) (op : List String) (obs : List (List String)) : DS
     match periodOf? p with
     | some p =>
       let truncated := obs.any (fun l => l.take 2 == ["report", "truncated"])
-      fin d (reportLines d.st p truncated)
+      fin d (reportTextLine d.st p d.base :: reportLines d.st p truncated)
     | none => (d, ["bad-op"])
   | ["write", addr, off, b] =>
     match addr.toNat?, off.toNat?, Proto.unhex? b with
